@@ -1148,6 +1148,12 @@ func fltReplay(hdr *fltHeader, c *fltCase, id int, shared *fltStats) Verdict {
 			if useProj {
 				stats["projection-spellings"]++
 			}
+			// two-pass use: a Match handed out for one result keeps describing that result while the
+			// same Filter is asked about other results
+			var held *benchproc.Match
+			var heldBits []bool
+			var heldAll, heldAny bool
+			heldOf := -1
 			for ri := range results {
 				b := &results[ri]
 				o := &c.O[b.j]
@@ -1156,6 +1162,19 @@ func fltReplay(hdr *fltHeader, c *fltCase, id int, shared *fltStats) Verdict {
 				}
 				obs := fltObserve(cf.f, b.res, (si+ri)%2 == 1)
 				stats["evaluations"]++
+				if held != nil {
+					n := len(heldBits)
+					if !fltSameBits(fltBitsOf(held, n), heldBits) || held.All() != heldAll || held.Any() != heldAny {
+						v := fail("match-overwritten-by-later-call", "%s: the Match obtained for result %d changed after the same Filter was asked about result %d: bits %v, were %v", cf.text, heldOf, b.j, fltBitsOf(held, n), heldBits)
+						v.Concrete = cf.text
+						return v
+					}
+				}
+				if hm, err := cf.f.Match(b.res.Clone()); err == nil {
+					held, heldOf = &hm, b.j
+					heldBits = fltBitsOf(held, len(b.res.Values))
+					heldAll, heldAny = held.All(), held.Any()
+				}
 				if sig, detail := fltJudge(&obs, b.exp, o.A, o.Y); sig != "" {
 					if useProj {
 						sig = "projection/" + sig
